@@ -308,6 +308,24 @@ def main(argv):
                     fail("comments#directive_node_exactly_for_directive_form", dict(comment=com, position=pos, source=src), dict(found=b, expected=want))
                 if str(keep) != str(proc):
                     fail("comments#directive_processing_changes_node_types_only", dict(comment=com, position=pos, source=src), dict(keep=str(keep)[:300], processed=str(proc)[:300]))
+        # a trailing comment is never a directive, whatever its text (also with quote characters in it); the code in front of
+        # it is quote-free here (a literal in front of it is the known finding KF-C11-D63)
+        for com in ("!$omp atomic", "!$omp atomic  (don't reorder)", "!dir$ ivdep \"x\"", "! plain 'q'", "!$acc loop ! it's", "!gcc$ unroll 'n'"):
+            for pos in range(len(body)):
+                if "'" in body[pos] or '"' in body[pos]:
+                    continue
+                src = "\n".join(body[:pos] + [body[pos] + " " + com] + body[pos + 1:]) + "\n"
+                cases += 1
+                try:
+                    proc = parse(src, "f2003", ignore_comments=False, process_directives=True)
+                    keep = parse(src, "f2003", ignore_comments=False)
+                except BaseException as e:  # noqa
+                    fail("comments#program_with_comment_parses", dict(comment=com, position=pos, trailing=True, source=src), "%s: %s" % (type(e).__name__, str(e)[:100]))
+                    continue
+                b = [(type(n).__name__, str(n).strip()) for n in _walk11(proc, (F11.Comment, F11.Directive)) if str(n).strip()]
+                a = [(type(n).__name__, str(n).strip()) for n in _walk11(keep, (F11.Comment, F11.Directive)) if str(n).strip()]
+                if b != [("Comment", com)] or a != [("Comment", com)]:
+                    fail("comments#trailing_comment_is_never_a_directive", dict(comment=com, position=pos, source=src), dict(processed=b, kept=a))
         # every comment exactly once, in order, in the tree and in the regenerated text: comment lines before, between and
         # after the statements and a trailing comment on every statement, for sequences of program units (also a main program
         # without PROGRAM statement, in every position of the sequence)
